@@ -759,6 +759,8 @@ class Engine:
         vs = self.src.enum_variants(ty)
         if vs is not None:
             return vs
+        if ty in FOREIGN_ENUMS:
+            return FOREIGN_ENUMS[ty]
         last = ty.split('::')[-1]
         return BUILTIN_ENUMS.get(last) if (ty.startswith(('std::', 'core::', 'alloc::')) or '::' not in ty) else self._enum_by_suffix(ty)
 
@@ -1550,6 +1552,10 @@ class SymOrdering:
     def __repr__(self):
         return f'Ordering({self.v})'
 
+
+# enums of third-party crates that harnesses construct by hand (declaration order of the crate's source)
+FOREIGN_ENUMS = {'serde_json::Value': ['Null', 'Bool', 'Number', 'String', 'Array', 'Object'],
+                 'serde_json::value::Value': ['Null', 'Bool', 'Number', 'String', 'Array', 'Object']}
 
 BUILTIN_ENUMS = {
     'Option': ['None', 'Some'], 'Result': ['Ok', 'Err'], 'ControlFlow': ['Continue', 'Break'],
